@@ -866,3 +866,129 @@ func (w *World) CalledThroughHelpers(instrs map[ssa.Instruction]bool, watched fu
 	}
 	return got
 }
+
+// ---- linear offsets along paths ------------------------------------------------------------------
+
+// LinVal is base + Off where base is an SSA value that is not itself an addition/subtraction of a
+// constant (nil base = pure constant).
+type LinVal struct {
+	Base ssa.Value
+	Off  int64
+	OK   bool
+}
+
+// linEval evaluates v as base+const with integer phis resolved through env (phi -> value chosen by
+// the path taken).
+func linEval(v ssa.Value, env map[*ssa.Phi]ssa.Value, depth int) LinVal {
+	if depth > 20 {
+		return LinVal{}
+	}
+	v = stripConv(v)
+	if cv, ok := constOf(v); ok {
+		if i, ok := constant.Int64Val(constant.ToInt(cv)); ok {
+			return LinVal{nil, i, true}
+		}
+		return LinVal{}
+	}
+	switch x := v.(type) {
+	case *ssa.Phi:
+		if e, ok := env[x]; ok {
+			return linEval(e, env, depth+1)
+		}
+		return LinVal{x, 0, true}
+	case *ssa.BinOp:
+		if x.Op == token.ADD || x.Op == token.SUB {
+			l, r := linEval(x.X, env, depth+1), linEval(x.Y, env, depth+1)
+			if l.OK && r.OK && r.Base == nil {
+				if x.Op == token.ADD {
+					return LinVal{l.Base, l.Off + r.Off, true}
+				}
+				return LinVal{l.Base, l.Off - r.Off, true}
+			}
+			if l.OK && r.OK && l.Base == nil && x.Op == token.ADD {
+				return LinVal{r.Base, l.Off + r.Off, true}
+			}
+		}
+	}
+	return LinVal{v, 0, true}
+}
+
+// LinPath is one explored path: the value read at the stop instruction, in linear form.
+type LinPath struct {
+	Val    LinVal
+	Stop   ssa.Instruction
+	Blocks []int
+}
+
+// LinPaths enumerates the acyclic paths of fn that start right after `start` (or at the entry when start
+// is nil), respect the cuts, do not pass an `abandon` instruction, and end at the first instruction for
+// which stop returns a value; that value is evaluated with the phis bound by the path.
+func LinPaths(fn *ssa.Function, start ssa.Instruction, cuts []EdgeCut, stop func(ssa.Instruction) (ssa.Value, bool), abandon func(ssa.Instruction) bool) []LinPath {
+	var out []LinPath
+	q := &PathQ{Fn: fn, Cut: cuts}
+	var walk func(b *ssa.BasicBlock, from int, env map[*ssa.Phi]ssa.Value, onPath map[int]bool, trail []int)
+	walk = func(b *ssa.BasicBlock, from int, env map[*ssa.Phi]ssa.Value, onPath map[int]bool, trail []int) {
+		if len(out) > 4096 {
+			panic(hardFail{"LinPaths: path cap hit in " + funcKey(fn)})
+		}
+		trail = append(trail, b.Index)
+		for i := from; i < len(b.Instrs); i++ {
+			in := b.Instrs[i]
+			if abandon != nil && abandon(in) {
+				return
+			}
+			if v, ok := stop(in); ok {
+				out = append(out, LinPath{linEval(v, env, 0), in, append([]int(nil), trail...)})
+				return
+			}
+		}
+		for s, succ := range b.Succs {
+			if q.cut(b, s) || onPath[succ.Index] {
+				continue
+			}
+			nenv := map[*ssa.Phi]ssa.Value{}
+			for k, v := range env {
+				nenv[k] = v
+			}
+			pi := -1
+			for k, p := range succ.Preds {
+				if p == b {
+					pi = k
+				}
+			}
+			for _, in := range succ.Instrs {
+				p, ok := in.(*ssa.Phi)
+				if !ok {
+					break
+				}
+				if pi >= 0 {
+					// parallel assignment: evaluate against the environment of the predecessor
+					e := p.Edges[pi]
+					if pe, ok := stripConv(e).(*ssa.Phi); ok {
+						if bound, ok := env[pe]; ok {
+							e = bound
+						}
+					}
+					nenv[p] = e
+				}
+			}
+			np := map[int]bool{}
+			for k := range onPath {
+				np[k] = true
+			}
+			np[succ.Index] = true
+			walk(succ, 0, nenv, np, trail)
+		}
+	}
+	if start == nil {
+		walk(fn.Blocks[0], 0, map[*ssa.Phi]ssa.Value{}, map[int]bool{0: true}, nil)
+		return out
+	}
+	b := start.Block()
+	for i, in := range b.Instrs {
+		if in == start {
+			walk(b, i+1, map[*ssa.Phi]ssa.Value{}, map[int]bool{b.Index: true}, nil)
+		}
+	}
+	return out
+}
